@@ -32,7 +32,7 @@ package analysis
 // Each check is a guarded InsertError call. The obligations are evaluated at the call sites themselves
 // (whatever their number or order): a report of type T is only made when the documented pattern holds.
 //@ func (*Analysis).cgAssignStat
-//@   props C20 C06 C11
+//@   props C20 C06 C11 C17
 //@   loop range:node.VarList step [C06,C11,assigned-name-is-submitted-to-the-occurrence-matcher] (!needDefineFlag && (a.checkTerm == results.CheckTermFour || a.checkTerm == results.CheckTermFive) && typeis(valExp, "*ast.NameExp"))
 //@        ==> hits("findNameStr#0") == prev(hits("findNameStr#0")) + 1
 //@   loop range:node.VarList step [C06,C11,assigned-table-key-is-submitted-to-the-occurrence-matcher] (!needDefineFlag && (a.checkTerm == results.CheckTermFour || a.checkTerm == results.CheckTermFive) && typeis(valExp, "*ast.TableAccessExp"))
@@ -40,6 +40,11 @@ package analysis
 //@   at call InsertError#* before assert[self-assign-only-when-every-pair-is-identical] arg1 == 20 ==>
 //@        len(node.VarList) == len(node.ExpList) && forall(k, 0, len(node.ExpList), CompExp(node.VarList[k], node.ExpList[k]))
 //@   at call InsertError#* before assert[assign-count-only-on-mismatch] arg1 == 7 ==> len(node.VarList) != len(node.ExpList)
+// C17: the two checks that live in this block answer to their own switch only - no path to a self-assign report (20) has asked
+// for the assign-count switch (7), and none to an assign-count report has asked for the self-assign switch (seed
+// C17-assign-count-switch-also-gates-self-assign)
+//@   at call InsertError#* before assert[C17,self-assign-report-is-not-gated-by-the-assign-count-switch] arg1 == 20 ==> hits("IsGlobalIgnoreErrType@arg1=7") == 0
+//@   at call InsertError#* before assert[C17,assign-count-report-is-not-gated-by-the-self-assign-switch] arg1 == 7 ==> hits("IsGlobalIgnoreErrType@arg1=20") == 0
 //@   loop for:i<nExps#1 invariant 0 <= i && i <= nExps && nExps == len(node.ExpList) && nVars == len(node.VarList) && nVars == nExps
 //@        && (isSame <==> forall(k, 0, i, CompExp(node.VarList[k], node.ExpList[k])))
 //@ end
